@@ -5,12 +5,28 @@ package ws
 import (
 	"context"
 	"net"
+	"runtime"
 	"time"
 )
 
 // C20_dial_cancellation: cancellation / expiry / dial timeout at any I/O operation, any
 // interleaving of the context watcher with the handshake, responsive and silent peers.
 func C20_dial_cancellation() {
+	// natively the scenario is repeated (same inputs) while its outcome may depend on the
+	// scheduler: with GOMAXPROCS(1) the watcher often first runs when Dial already waits for it
+	retry := 1
+	vRetry(40, func() {
+		if retry > 1 && !vSymbolic() {
+			defer runtime.GOMAXPROCS(runtime.GOMAXPROCS(1))
+			vLateWatcher = true
+			defer func() { vLateWatcher = false }()
+		}
+		retry++
+		vC20Scenario()
+	})
+}
+
+func vC20Scenario() {
 	vRandConcrete(true)
 	vClock, vTimers, vTheConn = 0, nil, nil
 	vRealStart = time.Now()
@@ -50,11 +66,9 @@ func C20_dial_cancellation() {
 		ctx = root
 		if ctxKind >= 2 {
 			d := []int64{20, 80}[ctxKind-2] * vMs
-			root.deadline, root.hasDL = vTimeAt(d), true
+			root.setDeadline(vTimeAt(d))
 			if vSymbolic() {
 				vTimers = append(vTimers, &vTimer{at: d, fire: func() { root.cancel(context.DeadlineExceeded) }})
-			} else {
-				time.AfterFunc(time.Duration(d), func() { root.cancel(context.DeadlineExceeded) })
 			}
 		}
 	}
@@ -63,10 +77,14 @@ func C20_dial_cancellation() {
 	if cancelAt == -2 && root != nil {
 		root.cancel(context.Canceled)
 	}
+	// a NetDial that does not look at the context (or completes just as the context ends) hands
+	// back an established connection although the context is over
+	ignore := vBool("netdialignoresctx")
+	vAssume(!ignore || cancelAt == -2)
 	dialed := false
 	d := Dialer{Timeout: time.Duration(timeout * vMs), NetDial: func(dctx context.Context, network, addr string) (net.Conn, error) {
 		// like net.Dialer: an already-ended context fails the dial
-		if err := dctx.Err(); err != nil {
+		if err := dctx.Err(); err != nil && !ignore {
 			return nil, err
 		}
 		dialed = true
@@ -111,8 +129,27 @@ func C20_dial_cancellation() {
 		vAssert(conn.ops == 0, "dial.cancelled_before_connecting_touches_nothing")
 		return
 	}
+	ek := uint64(4)
+	switch {
+	case err == nil:
+		ek = 0
+	case err == context.Canceled:
+		ek = 1
+	case err == context.DeadlineExceeded:
+		ek = 2
+	}
+	if _, raw := err.(vTimeoutErr); raw {
+		ek = 3
+	}
+	vTrace("errkind", ek)
 	if refuse {
 		vAssert(err != nil, "dial.refused_handshake_is_error")
+	}
+	if dialed && root != nil && root.Err() != nil && !refuse {
+		// the context ended while Dial was at work (nothing in this harness ends it after the last
+		// connection operation): whatever the handshake did — timed out on the poisoned
+		// connection, or even completed — the error is a context error
+		vAssert(ek == 1 || ek == 2, "dial.ended_context_reports_context_error")
 	}
 	if !silent && !refuse && cancelAt == -1 && (vSymbolic() || (ctxKind <= 1 && timeout == 0)) {
 		// nothing ends the context and the peer answers at once (logical time does not advance
